@@ -452,7 +452,7 @@ def main(tier, replay=None):
         lst = os.path.join(d, "libs.txt")
         open(lst, "w").write("\n".join(libs) + "\n")
         res.coverage["library_files"] = len(libs)
-        stream("libraries", "files:" + lst, 7 if thorough else 1, 0)
+        stream("libraries", "files:" + lst, 7 if thorough else 2, 0)
         # harvested snippets (+ variants)
         snips = harvest()
         res.coverage["harvested_string_literals"] = len(snips)
